@@ -4,6 +4,7 @@ import (
 	"encoding/binary"
 	"fmt"
 	"strings"
+	"sync"
 	"time"
 
 	wire "github.com/jeroenrinzema/psql-wire"
@@ -12,6 +13,7 @@ import (
 	"verifharness/core"
 	"verifharness/hs"
 	"verifharness/pg"
+	"verifharness/tr"
 )
 
 // C05 - Simple Query: ordered results, then exactly one ReadyForQuery; result
@@ -340,6 +342,50 @@ func (ch c05) Run(c *core.Ctx) {
 		if c.NViol() >= 20 {
 			return
 		}
+	}
+	// four connections run scripts of this batch at the same time (the transport yields at every read and
+	// write, so their statements overlap): every cycle is judged as when alone - what one connection's
+	// statements wrote, completed or failed with stays with that connection
+	if c.Begin(95000000) && c.NViol() < 10 {
+		var wg sync.WaitGroup
+		for g := 0; g < 4; g++ {
+			wg.Add(1)
+			go func(g int) {
+				defer wg.Done()
+				gs := &hs.Sess{Progs: map[string]*hs.Prog{}}
+				conn := tr.NewConn(gs)
+				conn.Yield = tr.YieldFn(uint64(c.Seed)*31 + uint64(c.Batch*8+g))
+				env.L.DialConn(conn)
+				gcl := hs.NewClient(conn)
+				if err := gcl.StartupOK("u"); err != nil {
+					return
+				}
+				n := 0
+				for idx := c.Batch + nb*g; idx < len(all) && n < 60 && c.NViol() < 10; idx += nb * 4 {
+					sc := all[idx]
+					if sc.Kind == "blank" {
+						continue
+					}
+					n++
+					text := fmt.Sprintf("G%d.%d %s", g, idx, sc.shape())
+					gs.Progs[text] = sc.build(idx)
+					evStart := gcl.C.NEvents()
+					out, closed := gcl.Step(pg.Query(text))
+					if gcl.Hung {
+						return
+					}
+					ok := ch.judge(c, idx, sc, text, out, closed, gcl.C.EventsFrom(evStart), gcl.C.Out())
+					c.Count("query_cycles_next_to_other_connections", 1)
+					delete(gs.Progs, text)
+					if !ok || closed {
+						return
+					}
+				}
+				gcl.Finish()
+			}(g)
+		}
+		wg.Wait()
+		c.Eval("four connections at once", true)
 	}
 	if cl != nil {
 		cl.Finish()
